@@ -257,9 +257,14 @@ func (b *builder) buildEnvs() error {
 
 // buildLogDir builds the log directory for the DAG.
 func (b *builder) buildLogDir() (err error) {
-	logDir, err := substituteCommands(os.ExpandEnv(b.def.LogDir))
-	if err != nil {
-		return err
+	logDir := os.ExpandEnv(b.def.LogDir)
+	if !b.opts.noEval {
+		// Command substitution is only performed when the DAG is loaded
+		// for execution.
+		logDir, err = substituteCommands(logDir)
+		if err != nil {
+			return err
+		}
 	}
 	b.dag.LogDir = logDir
 	return err
